@@ -2,8 +2,9 @@
 
 Every generated case is an *editing block*: a mesh (polyline / surface / tetrahedral mesh), a flag "connectivity was
 queried before editing", and a generated sequence of 1-4 operations whose integer arguments are reduced modulo what
-exists when the operation is issued.  The state of the editor is observed (read-only) after every operation and compared
-with a reference refinement computed by the harness from the state observed before the operation; where the
+exists when the operation is issued (and written in one of the admitted forms: from the front or Python-style from the end,
+positional or by keyword, plain or numpy integer; number of rounds 0, >= 1 or left to its default).  The state of the
+editor is observed (read-only) after every operation and compared with a reference refinement computed by the harness from the state observed before the operation; where the
 documentation leaves a choice (which diagonal of a quad, how a polygon is triangulated) a validity predicate is used,
 never one expected answer.  Compound operations (loop_subdivision(n>1), operations that "triangulate first",
 subdivide_triangles_6) are compared with their documented decomposition executed step by step on fresh meshes.
@@ -35,7 +36,14 @@ RULE = ("Editing blocks: generated mesh (surfaces: 15 base shapes x face deletio
         "element id or an error of the caller) that leaves the block after 0-4 operations and is caught; unusual element roles "
         "(a two-face 'pillow' component - two triangles or quads on the same vertices - alone or next to the mesh, with the histories "
         "whose result an end-point-keyed edge model can still store; unused vertices as first / middle / last id, also in tet meshes); "
-        "0-2 decoy meshes of the same size built, edited, dropped and garbage-collected before the case. Sub-check size_thresholds: "
+        "0-2 decoy meshes of the same size built, edited, dropped and garbage-collected before the case. Argument forms, drawn per "
+        "operation: element ids (surface face / cell / polyline edge; not the derived faces of a tet mesh) written from the end, id - count "
+        "in [-count,-1] (1/3 of those operations; plain or numpy scalar), ids and round counts passed by their documented keyword (face_id, cell_id, edge_ind, n, repeat), number of rounds "
+        "of loop_subdivision / subdivide_triangles_6 = 0 (3/8 of those operations: the state must stay as it is or, on a mesh with "
+        "non-triangular faces, undergo exactly the announced preliminary triangulation) or omitted (documented default 1); the `verbose` "
+        "flag of the editors and the mesh of split_double_boundary_edges_triangles positional or by keyword; polyline edge ids also as "
+        "numpy scalars. A call with a negative id or zero rounds may alternatively be rejected: its exception then leaves the block like "
+        "any other and the object passed in is judged as after an exception (polylines: must be what it was). Sub-check size_thresholds: "
         "triangulated grids whose vertex / face count stays below 2**8 or 2**16 before a refinement round and reaches, passes or misses "
         "it by one during the round - mostly a small grid padded with unused vertices (front / middle / back), 1 case in 12 a real "
         "grid of 8000-16600 vertices. The editor state is observed after every "
@@ -53,6 +61,12 @@ ASSUMPTIONS = ["inputs are oriented manifold surfaces / conforming tetrahedral m
                "data processed before the exception (what the unchanged library does: the block still rebuilds it); editor.mesh is not looked at",
                "config.complete_faces_from_cells / complete_edges_from_faces = False are not drawn for tetrahedral meshes (outside the "
                "quantifier of C13; the unchanged library relies on the completion there)",
+               "negative element ids in [-count,-1] denote element id+count of the state in which the operation is issued (what Python "
+               "containers and the unchanged library do) and zero is a legitimate number of refinement rounds; since the docstrings say "
+               "neither explicitly, a call with such an argument may also raise - never asserted: which of the two. Element ids "
+               "are never below -count and never >= count (except in the 'bad-index' exception case); negative round counts are not drawn; "
+               "face ids of split_tet_from_face_center are never written from the end (NEG_VOLUME_FACE_IDS: the tail of the face list "
+               "of a volume editor is left open by this check, see the constant)",
                "meshes with a pillow component: 1-to-4 refinement and any triangulation after a 1-to-3-quads refinement are not issued "
                "(the refined pillow has two edges between the same two vertices, which the library's end-point-keyed edges cannot store); "
                "the validator then accepts two faces on the same vertex set, everything else unchanged"]
@@ -488,20 +502,37 @@ def growth(name, n):
     return {"loop": 4 ** n, "quads3": 3, "sub6": 6 ** n}.get(name, 1)
 
 
-def apply_surface_op(ed, name, arg, n):
+def apply_surface_op(ed, name, arg, n, flags=()):
+    """flags: how the argument is written (see ID_FORMS / COUNT_FORMS); arg is the id exactly as it is handed to the library"""
     if name == "triangulate":
         return ed.triangulate()
     if name == "triangulate_face":
-        return ed.triangulate_face(arg)
+        return call_with(ed.triangulate_face, name, arg, flags)
     if name == "fan":
-        return ed.split_face_as_fan(arg)
+        return call_with(ed.split_face_as_fan, name, arg, flags)
     if name in ("loop", "loop1"):
-        return ed.loop_subdivision(n)
+        return call_with(ed.loop_subdivision, name, n, flags)
     if name == "quads3":
         return ed.subdivide_triangles_3quads()
     if name == "sub6":
-        return ed.subdivide_triangles_6(n)
+        return call_with(ed.subdivide_triangles_6, name, n, flags)
     raise AssertionError(name)
+
+
+def check_zero_rounds(ctx, name, S0, S1, what):
+    """loop_subdivision(0) / subdivide_triangles_6(0): no refinement round. Both docstrings announce a preliminary
+    triangulation of a mesh that is not triangulated ("eventual first triangulation does not count"), so on such a mesh
+    either nothing or exactly that triangulation may have happened; a triangle mesh stays as it is."""
+    diff = [x for x in same_state(S0, S1, with_corners=False) if x != "edges"]
+    if not diff:
+        ctx.label("rounds=0:state-unchanged")
+        return True
+    if not ctx.check(not S0.all_tri, "noop", f"{what}: zero refinement rounds on a triangle mesh changed {diff}: {len(S1.V)} vertices / {len(S1.F)} faces, "
+                                             f"were {len(S0.V)} / {len(S0.F)}"):
+        return False
+    ctx.label("rounds=0:triangulated")
+    return check_triangulation_step(ctx, S0, S1, [i for i, f in enumerate(S0.F) if len(f) >= 4],
+                                    what + " (zero rounds: at most the preliminary triangulation)")
 
 
 def check_single_step(ctx, name, arg, S0, S1, what):
@@ -694,6 +725,84 @@ def as_id(i, idform):
     return {"np.int64": np.int64, "np.int32": np.int32, "np.intp": np.intp}[idform](i)
 
 
+# ----------------------------------------------------------------------------------------------- argument forms
+# An operation record is [name, a, b] or [name, a, b, form]; form = flags joined by '+':
+#   neg     : the element id is written the Python way from the end (id - count, in [-count, -1]); it denotes the same element
+#   kw      : the argument is passed by its documented keyword (face_id / cell_id / edge_ind / n / repeat)
+#   zero    : the number of rounds of loop_subdivision / subdivide_triangles_6 is 0 ("number of successive subdivisions": none)
+#   default : the number of rounds is not passed at all (documented default: 1)
+# Flags that do not apply to an operation are ignored. "" comes first: shrinking goes to the plain positional form.
+ID_FORMS = ["", "", "", "neg", "kw", "neg+kw"]
+COUNT_FORMS = ["", "", "", "zero", "zero", "kw", "zero+kw", "default"]
+ID_OPS = ("triangulate_face", "fan", "cell_fan", "face_split", "split_edge")
+COUNT_OPS = ("loop", "sub6")
+KEYWORD = {"triangulate_face": "face_id", "fan": "face_id", "cell_fan": "cell_id", "face_split": "face_id", "split_edge": "edge_ind",
+           "loop": "n", "loop1": "n", "sub6": "repeat"}
+
+
+# Face ids written from the end for split_tet_from_face_center: NOT issued. The faces of a tetrahedral mesh are derived
+# elements; inside an editing block the tail of the editor's face list is whatever the operations have registered so far
+# (this check leaves open which inner faces an operation registers at once and which are left to the completion at the end
+# of the block). A stored property-preserving change (seeded_benign/C13-b-3) registers the inner faces before it rewrites
+# faces[face_id]; with a face id counted from the end that rewrite lands on a freshly registered face and the split face
+# stays in the result - the same mechanism as the cell-id defect of seeded/C13-r6-1, but on a container whose growth is
+# unspecified. Whether "-k" is an admissible face id there is doubtful, so the form is switched off (the record keeps its
+# flag; set to True to issue it: the only alarm it then raises on the stored changes is C13-b-3, signature untouched-faces).
+NEG_VOLUME_FACE_IDS = False
+
+
+def draw_arg_form(draw, name):
+    return draw(st.sampled_from(ID_FORMS if name in ID_OPS else COUNT_FORMS)) if name in ID_OPS or name in COUNT_OPS else ""
+
+
+def op_flags(op):
+    """flags of an operation record that apply to its operation"""
+    fl = set(x for x in (op[3] if len(op) > 3 and isinstance(op[3], str) else "").split("+") if x)
+    if op[0] in ID_OPS:
+        return fl & {"neg", "kw"}
+    if op[0] in COUNT_OPS:
+        fl &= {"kw", "zero", "default"}
+        if "zero" in fl:
+            fl.discard("default")
+        if "default" in fl:
+            fl.discard("kw")
+        return fl
+    return set()
+
+
+def label_flags(ctx, name, flags):
+    if name in ID_OPS:
+        ctx.label("id-form=" + ("negative" if "neg" in flags else "plain") + ("+keyword" if "kw" in flags else ""))
+    elif name in COUNT_OPS:
+        ctx.label("rounds-form=" + ("0" if "zero" in flags else "omitted" if "default" in flags else "n>=1") + ("+keyword" if "kw" in flags else ""))
+
+
+def call_with(f, name, value, flags, *before):
+    """f(*before, value) / f(*before, <documented keyword>=value) / f(*before) when the argument is left to its default"""
+    if value is None or "default" in flags:
+        return f(*before)
+    if "kw" in flags:
+        return f(*before, **{KEYWORD[name]: value})
+    return f(*before, value)
+
+
+def call_marginal(ctx, signature, marginal, f, *a):
+    """(status, value): 'ok' | 'violation' (already reported) | an Exception. Arguments at the margin of what the documentation
+    admits (negative ids, zero rounds) may be *rejected*: an exception raised by such a call is handed
+    back instead of being reported (the caller then leaves the editing block through it, as a `with` body would)."""
+    if not marginal:
+        ok, v = ctx.call(signature, f, *a)
+        return ("ok" if ok else "violation"), v
+    from vlib.runner import Violation, HarnessError
+    try:
+        return "ok", f(*a)
+    except (Violation, HarnessError):
+        raise
+    except Exception as e:
+        ctx.label("marginal-argument-rejected")
+        return e, None
+
+
 def apply_env(env):
     import mouette as M
     M.config.display_duplicate_attribute_warning = bool(env.get("dup_warning", False))
@@ -763,15 +872,22 @@ def representable_ops(ops, second=False):
     in two quads: neither result can be stored by a data model that keys edges by their end points, so those histories are
     outside the domain. What remains: fans, triangulations, one 1-to-3-quads refinement followed by fans only."""
     out, after_q3 = [], second
-    for name, a, b in ops:
+    for op in ops:
+        name, a, b = op[:3]
         if name in ("loop", "sub6"):
             name = "quads3"
         if after_q3:
             name = "fan"
         if name == "quads3":
             after_q3 = True
-        out.append([name, a, b])
+        out.append([name, a, b] + list(op[3:]))
     return out
+
+
+def draw_surf_op(draw):
+    """[operation, integer reduced modulo what exists, selector of the number of rounds, argument form]"""
+    name = draw(st.sampled_from(SURF_OPS))
+    return [name, draw(st.integers(0, 10 ** 4)), draw(st.integers(0, 5)), draw_arg_form(draw, name)]
 
 
 @st.composite
@@ -786,7 +902,7 @@ def surface_case(draw):
         s = draw(G.surfaces(max_faces=36, max_ops=5, keep_isolated=draw(st.integers(0, 9)) == 0))
     s = dict(s, **draw_unusual_elements(draw, s["V"], s["F"]))
     nops = draw(st.integers(1, 4))
-    ops = [[draw(st.sampled_from(SURF_OPS)), draw(st.integers(0, 10 ** 4)), draw(st.integers(0, 5))] for _ in range(nops)]
+    ops = [draw_surf_op(draw) for _ in range(nops)]
     # connectivity queried beforehand: nothing / a few individual query kinds (each touches one lazily built table)
     pre = surf_queries(draw, 1, 4) if draw(st.integers(0, 2)) else []
     V, sc, vform, placement = draw_scale_and_vform(draw, s["V"], lambda Vi: len(set(map(tuple, Vi.tolist()))) == len(Vi))
@@ -795,7 +911,7 @@ def surface_case(draw):
         # a second editing block on the same object (the result of the first block or the object given to it)
         second = {"on": draw(st.sampled_from(["result", "input"])), "sweep_first": draw(st.booleans()),
                   "pre": surf_queries(draw, 0, 3),
-                  "ops": [[draw(st.sampled_from(SURF_OPS)), draw(st.integers(0, 10 ** 4)), draw(st.integers(0, 5))] for _ in range(draw(st.integers(1, 2)))]}
+                  "ops": [draw_surf_op(draw) for _ in range(draw(st.integers(1, 2)))]}
     if any(x.startswith("pillow") for x in s["extra"]):
         ops = representable_ops(ops)
         if second:
@@ -803,7 +919,7 @@ def surface_case(draw):
     uniform = len(set(len(f) for f in s["F"])) == 1
     return {"V": V, "F": s["F"], "tags": s["tags"], "ops": ops, "pre": pre, "sort": draw(st.integers(0, 3)) != 0,
             "form": draw_form(draw, len(V), uniform and vform == "float"), "sweep_seed": draw(st.integers(0, 1000)),
-            "scale": sc, "vform": vform, "verbose": draw(st.integers(0, 4)) == 0, "second": second,
+            "scale": sc, "vform": vform, "verbose": draw(st.integers(0, 4)) == 0, "verbose_kw": draw(st.booleans()), "second": second,
             "env": draw_env(draw), "fail": draw_fail(draw), "placement": placement, "extra": s.get("extra", []),
             "decoys": draw(st.sampled_from([0, 0, 0, 0, 1, 2]))}
 
@@ -923,6 +1039,11 @@ def fail_surface_block(ctx, ed, m, snap, cur, fail, done, sort_on, seed, tag):
             raise RuntimeError("error raised by user code inside the editing block")
         except RuntimeError as e:
             exc = e
+    leave_surface_block_by(ctx, ed, m, snap, cur, exc, done, sort_on, seed, tag)
+
+
+def leave_surface_block_by(ctx, ed, m, snap, cur, exc, done, sort_on, seed, tag):
+    """the exception exc leaves the block (cur = the editor state observed before the call that raised it)"""
     what = f"{tag}block left by {type(exc).__name__} after {done}"
     ok, _ = ctx.call("editor:exit-after-exception", ed.__exit__, type(exc), exc, exc.__traceback__)
     if not ok:
@@ -945,13 +1066,16 @@ def fail_surface_block(ctx, ed, m, snap, cur, fail, done, sort_on, seed, tag):
     surface_sweep(m, len(St.V), St.F, sort_on, seed, pc, what + " [input object]")
 
 
-def run_surface_block(ctx, m, V0, F, flat, ops, sort_on, seed, verbose, tag, do_sweep, idform="int", fail=None):
+def run_surface_block(ctx, m, V0, F, flat, ops, sort_on, seed, verbose, tag, do_sweep, idform="int", fail=None, verbose_kw=False):
     """one editing block on the surface object m whose state is (V0,F). Returns (result object, its observed state) or None."""
     import mouette as M
     snap = observe_surface(m, ctx, tag + "input of the block")
     if snap is None:
         return None
-    ok, ed = ctx.call("editor:init", M.mesh.SurfaceSubdivision, m, verbose)
+    if verbose_kw:
+        ok, ed = ctx.call("editor:init", lambda: M.mesh.SurfaceSubdivision(m, verbose=verbose))
+    else:
+        ok, ed = ctx.call("editor:init", M.mesh.SurfaceSubdivision, m, verbose)
     if not ok:
         return None
     ok, _ = ctx.call("editor:enter", ed.__enter__)
@@ -964,32 +1088,45 @@ def run_surface_block(ctx, m, V0, F, flat, ops, sort_on, seed, verbose, tag, do_
         return None
     done = []
     stop_at = None if not fail else fail["after"] % (len(ops) + 1)
-    for k, (name, a, b) in enumerate(ops):
+    for k, op in enumerate(ops):
+        name, a, b = op[:3]
+        flags = op_flags(op)
         if stop_at is not None and k == stop_at:
             break
         nF = len(cur.F)
         n = 1
-        arg = None
+        arg = passed = None
         if name in ("triangulate_face", "fan"):
             arg = a % nF
+            passed = as_id(arg - nF if "neg" in flags else arg, idform)      # -nF..-1 denote faces 0..nF-1
         if name in ("loop", "sub6"):
-            n = 2 if b == 0 else 3 if (b == 1 and name == "loop") else 1
+            n = 0 if "zero" in flags else 1 if "default" in flags else 2 if b == 0 else 3 if (b == 1 and name == "loop") else 1
         if sum(1 if len(f) == 3 else len(f) for f in cur.F) * growth(name, n) > MAX_FACES:
             ctx.label("op-skipped-size")
             continue
-        what = f"{tag}op #{k} {name}({arg if arg is not None else (n if name in ('loop', 'sub6') else '')}) after {done}"
+        shown = (f"{passed!r} = face {arg}" if "neg" in flags else str(arg)) if arg is not None else (n if name in ('loop', 'sub6') else '')
+        what = (f"{tag}op #{k} {name}({shown}){' [argument by keyword]' if 'kw' in flags else ' [argument omitted]' if 'default' in flags else ''}"
+                f" after {done}")
         ctx.label("op=" + name + (str(n) if name in ("loop", "sub6") else ""))
+        label_flags(ctx, name, flags)
         if not cur.all_tri and name in ("loop", "quads3", "sub6"):
             ctx.label("op-triangulates-first")
-        ok, _ = ctx.call("op:" + name, apply_surface_op, ed, name, as_id(arg, idform), n)
-        if not ok:
+        status, _ = call_marginal(ctx, "op:" + name, "neg" in flags or "zero" in flags, apply_surface_op, ed, name, passed, n, flags)
+        if status == "violation":
+            return None
+        if status != "ok":
+            # the call was rejected: its exception leaves the block
+            leave_surface_block_by(ctx, ed, m, snap, cur, status, done, sort_on, seed, tag)
             return None
         done.append(name)
         nxt = observe_surface(ed.mesh, ctx, what)
         if nxt is None:
             return None
         steps = decompose(name, n, cur.all_tri)
-        if steps is None:
+        if n == 0:
+            if not check_zero_rounds(ctx, name, cur, nxt, what):
+                return None
+        elif steps is None:
             if not check_single_step(ctx, name, arg, cur, nxt, what):
                 return None
         else:
@@ -1093,7 +1230,7 @@ def fn_surface(case, ctx):
     surface_queries(Pfx(ctx, "pre:"), m, V, F, case["pre"], case["sort"], "query before editing")
     sweep1 = not second or second["sweep_first"]
     r = run_surface_block(ctx, m, V0, F, flat, case["ops"], case["sort"], case["sweep_seed"], bool(case.get("verbose")), "", sweep1,
-                          idform=env.get("ids", "int"), fail=fail)
+                          idform=env.get("ids", "int"), fail=fail, verbose_kw=bool(case.get("verbose_kw")))
     if r is None or not second:
         return
     # ---- the same object is edited a second time (after a full sweep, a few single queries, or no query at all)
@@ -1121,7 +1258,8 @@ def ears_case(draw):
     V, sc, vform, placement = draw_scale_and_vform(draw, s["V"], lambda Vi: len(set(map(tuple, Vi.tolist()))) == len(Vi))
     return {"V": V, "F": s["F"], "tags": s["tags"], "pre": pre, "sort": draw(st.integers(0, 3)) != 0,
             "sweep_seed": draw(st.integers(0, 1000)), "scale": sc, "vform": vform, "twice": draw(st.booleans()),
-            "form": draw_form(draw, len(V), vform == "float"), "env": draw_env(draw), "placement": placement}
+            "form": draw_form(draw, len(V), vform == "float"), "env": draw_env(draw), "placement": placement,
+            "mesh_kw": draw(st.integers(0, 3)) == 0}
 
 
 def fn_ears(case, ctx):
@@ -1148,7 +1286,11 @@ def fn_ears(case, ctx):
     snap = observe_surface(m, ctx, "input")
     if snap is None:
         return
-    ok, ret = ctx.call("op:split_double_boundary_edges_triangles", M.mesh.split_double_boundary_edges_triangles, m)
+    ctx.label("mesh-argument=" + ("keyword" if case.get("mesh_kw") else "positional"))
+    if case.get("mesh_kw"):       # `mesh` is the name of the parameter in the signature and in the docstring
+        ok, ret = ctx.call("op:split_double_boundary_edges_triangles", lambda: M.mesh.split_double_boundary_edges_triangles(mesh=m))
+    else:
+        ok, ret = ctx.call("op:split_double_boundary_edges_triangles", M.mesh.split_double_boundary_edges_triangles, m)
     if not ok:
         return
     what = f"split_double_boundary_edges_triangles (ear triangles {ears})"
@@ -1407,8 +1549,8 @@ def vol_queries(draw, lo, hi):
 
 
 def vol_ops(draw, lo, hi):
-    return [[draw(st.sampled_from(["cell_fan", "face_split", "face_split"])), draw(st.integers(0, 10 ** 4)), draw(st.integers(0, 10 ** 4))]
-            for _ in range(draw(st.integers(lo, hi)))]
+    return [[draw(st.sampled_from(["cell_fan", "face_split", "face_split"])), draw(st.integers(0, 10 ** 4)), draw(st.integers(0, 10 ** 4)),
+             draw(st.sampled_from(ID_FORMS))] for _ in range(draw(st.integers(lo, hi)))]
 
 
 @st.composite
@@ -1432,7 +1574,7 @@ def volume_case(draw):
         second = {"on": draw(st.sampled_from(["result", "input"])), "sweep_first": draw(st.booleans()), "pre": vol_queries(draw, 0, 3), "ops": vol_ops(draw, 1, 2)}
     return {"V": V, "C": t["C"], "tags": t["tags"], "ops": vol_ops(draw, 1, 4), "pre": pre, "sort": draw(st.integers(0, 3)) != 0,
             "form": draw_form(draw, len(V), vform == "float"), "sweep_seed": draw(st.integers(0, 1000)),
-            "scale": sc, "vform": vform, "verbose": draw(st.integers(0, 4)) == 0, "second": second,
+            "scale": sc, "vform": vform, "verbose": draw(st.integers(0, 4)) == 0, "verbose_kw": draw(st.booleans()), "second": second,
             "env": draw_env(draw, volume=True), "fail": draw_fail(draw), "placement": placement, "extra": extra}
 
 
@@ -1480,6 +1622,11 @@ def fail_volume_block(ctx, ed, m, snap, cur, fail, done, sort_on, seed, tag):
             raise RuntimeError("error raised by user code inside the editing block")
         except RuntimeError as e:
             exc = e
+    leave_volume_block_by(ctx, ed, m, snap, cur, exc, done, sort_on, seed, tag)
+
+
+def leave_volume_block_by(ctx, ed, m, snap, cur, exc, done, sort_on, seed, tag):
+    """the exception exc leaves the block (cur = the editor state observed before the call that raised it)"""
     what = f"{tag}block left by {type(exc).__name__} after {done}"
     ok, _ = ctx.call("editor:exit-after-exception", ed.__exit__, type(exc), exc, exc.__traceback__)
     if not ok:
@@ -1503,13 +1650,16 @@ def fail_volume_block(ctx, ed, m, snap, cur, fail, done, sort_on, seed, tag):
     volume_sweep(m, len(St.V), St.C, sort_on, seed, pc, what + " [input object]")
 
 
-def run_volume_block(ctx, m, V0, C, ops, sort_on, seed, verbose, tag, do_sweep, idform="int", fail=None):
+def run_volume_block(ctx, m, V0, C, ops, sort_on, seed, verbose, tag, do_sweep, idform="int", fail=None, verbose_kw=False):
     """one editing block on the tetrahedral mesh object m whose state is (V0,C). Returns (result object, observed state) or None"""
     import mouette as M
     snap = observe_volume(m, ctx, tag + "input of the block")
     if snap is None:
         return None
-    ok, ed = ctx.call("editor:init", M.mesh.VolumeSubdivision, m, verbose)
+    if verbose_kw:
+        ok, ed = ctx.call("editor:init", lambda: M.mesh.VolumeSubdivision(m, verbose=verbose))
+    else:
+        ok, ed = ctx.call("editor:init", M.mesh.VolumeSubdivision, m, verbose)
     if not ok:
         return None
     ok, _ = ctx.call("editor:enter", ed.__enter__)
@@ -1522,11 +1672,14 @@ def run_volume_block(ctx, m, V0, C, ops, sort_on, seed, verbose, tag, do_sweep, 
         return None
     done = []
     stop_at = None if not fail else fail["after"] % (len(ops) + 1)
-    for k, (name, a, b) in enumerate(ops):
+    for k, op in enumerate(ops):
+        name, a, b = op[:3]
+        flags = op_flags(op)
         if stop_at is not None and k == stop_at:
             break
         if name == "cell_fan":
             arg = a % len(cur.C)
+            count = len(cur.C)
             fnc = ed.split_cell_as_fan
         else:
             # mostly a face of a cell touched by the previous operations (the last cells), else any face
@@ -1539,16 +1692,26 @@ def run_volume_block(ctx, m, V0, C, ops, sort_on, seed, verbose, tag, do_sweep, 
                 arg = a % len(cur.F)
             if len(cur.F[arg]) != 3:
                 continue
+            count = len(cur.F)
             fnc = ed.split_tet_from_face_center
-        what = f"{tag}op #{k} {name}({arg}) after {done}"
+            if not NEG_VOLUME_FACE_IDS:
+                flags = flags - {"neg"}
+        passed = as_id(arg - count if "neg" in flags else arg, idform)      # -count..-1 denote elements 0..count-1
+        what = (f"{tag}op #{k} {name}({str(passed) + ' = element ' if 'neg' in flags else ''}{arg}){' [argument by keyword]' if 'kw' in flags else ''}"
+                f" after {done}")
         if name == "face_split":
             ncell = sum(1 for cl in cur.C if set(cur.F[arg]) <= set(cl))
             if not ctx.check(ncell in (1, 2), "editor:faces", f"{what}: face {cur.F[arg]} of the editor's face list belongs to {ncell} cells"):
                 return None
             ctx.label("face_split:" + ("interior" if ncell == 2 else "border"))
         ctx.label("op=" + name)
-        ok, _ = ctx.call("op:" + name, fnc, as_id(arg, idform))
-        if not ok:
+        label_flags(ctx, name, flags)
+        status, _ = call_marginal(ctx, "op:" + name, "neg" in flags, call_with, fnc, name, passed, flags)
+        if status == "violation":
+            return None
+        if status != "ok":
+            # the call was rejected: its exception leaves the block
+            leave_volume_block_by(ctx, ed, m, snap, cur, status, done, sort_on, seed, tag)
             return None
         done.append(name)
         nxt = observe_volume(ed.mesh, ctx, what)
@@ -1624,7 +1787,7 @@ def fn_volume(case, ctx):
         return
     sweep1 = not second or second["sweep_first"]
     r = run_volume_block(ctx, m, V0, C, case["ops"], case["sort"], case["sweep_seed"], bool(case.get("verbose")), "", sweep1,
-                         idform=env.get("ids", "int"), fail=fail)
+                         idform=env.get("ids", "int"), fail=fail, verbose_kw=bool(case.get("verbose_kw")))
     if r is None or not second:
         return
     R, SR = r
@@ -1687,7 +1850,9 @@ def polyline_case(draw):
     for _ in ops:
         k = draw(st.integers(0, 3))
         between.append("none" if k == 0 else "all" if k == 1 else poly_queries(draw, 1, 3))
-    return {"V": V, "E": E, "ops": ops, "pre": pre, "between": between, "kind": kind, "scale": sc, "vform": vform}
+    forms = [draw(st.sampled_from(ID_FORMS)) for _ in ops]
+    return {"V": V, "E": E, "ops": ops, "pre": pre, "between": between, "kind": kind, "scale": sc, "vform": vform, "forms": forms,
+            "ids": draw(st.sampled_from(["int", "int", "int", "np.int64", "np.int32"]))}
 
 
 def polyline_sweep(pl, nV, medges, ctx, where):
@@ -1790,12 +1955,26 @@ def fn_polyline(case, ctx):
     polyline_touch(pl, len(V), E, pre, Pfx(ctx, "pre:"), "before editing")
     mV, mE = V, list(E)
     nops = len(case["ops"])
+    forms = case.get("forms", [])
+    idform = case.get("ids", "int")
+    ctx.label("ids=" + idform)
     for k, a in enumerate(case["ops"]):
         e = a % len(mE)
         A, B = mE[e]
-        what = f"split_edge #{k} of edge {e}=({A},{B})"
-        ok, ret = ctx.call("op:split_edge", M.mesh.split_edge, pl, e)
-        if not ok:
+        flags = op_flags(["split_edge", a, 0, forms[k] if k < len(forms) else ""])
+        passed = as_id(e - len(mE) if "neg" in flags else e, idform)         # -nE..-1 denote edges 0..nE-1
+        what = f"split_edge #{k} of edge {str(passed) + ' = ' if 'neg' in flags else ''}{e}=({A},{B}){' [argument by keyword]' if 'kw' in flags else ''}"
+        label_flags(ctx, "split_edge", flags)
+        # (the polyline itself is always positional: its parameter is called `polyline` in the signature and `mesh` in the docstring)
+        status, ret = call_marginal(ctx, "op:split_edge", "neg" in flags, call_with, M.mesh.split_edge, "split_edge", passed, flags, pl)
+        if status == "violation":
+            return
+        if status != "ok":
+            # the call was rejected: the polyline must be what it was
+            gV, gE = read_vertices(pl.vertices), read_index_lists(pl.edges)
+            same = gV is not None and gE is not None and gV.tobytes() == np.asarray(mV, dtype=float).tobytes() and [tuple(x) for x in gE] == [tuple(x) for x in mE]
+            if ctx.check(same, "input:mixture-after-exception", f"{what}: rejected with {type(status).__name__}, but the polyline is no longer what it was"):
+                polyline_sweep(pl, len(mV), mE, ctx, what + " [rejected call, read-out afterwards]")
             return
         if not ctx.check(ret is pl, "return", f"{what}: documented to return the processed polyline, returned {type(ret).__name__}"):
             return
